@@ -96,6 +96,10 @@ func main() {
 		cmdMemOps(in)
 	case "valseq":
 		cmdValSeq(in)
+	case "loopsplit":
+		cmdLoopSplit(in)
+	case "stmts":
+		cmdStmts(in)
 	default:
 		fmt.Fprintln(os.Stderr, "unknown command", os.Args[1])
 		os.Exit(2)
